@@ -184,7 +184,7 @@ func gen(r *vh.Rand, tier string) []string {
 			out = append(out, c)
 		}
 		{
-			k := r.Range(1, 4)
+			k := r.Range(0, 4)
 			var ws []string
 			for j := 0; j < k; j++ {
 				ws = append(ws, fmt.Sprint(r.PickInt([]int{0, 1, 2, 3, 4, 6, 8, -1, -2, -8, 5})))
@@ -208,7 +208,7 @@ func gen(r *vh.Rand, tier string) []string {
 			if r.Chance(2, 3) {
 				b = mutate(r, b)
 			}
-			out = append(out, "grpcjson "+vh.Hex(b))
+			out = append(out, fmt.Sprintf("grpcjson %s %s", vh.B(r.Chance(1, 2)), vh.Hex(b)))
 		}
 		{
 			y := "requests:\n  - name: a\n    uri: /a\n    method: GET\nscenarios:\n  - name: s\n    weight: 1\n    min_waiting_time: 10\n    requests: [\"a(1)\", \"sleep(5)\"]\n"
